@@ -7,7 +7,7 @@ func extractEndpoint(out string) {
 	const file = "bus/net/endpoint.go"
 	f := load(file)
 	l := &leanFile{ns: "Endpoint"}
-	fields := []string{"handlers", "stream"}
+	fields := []string{"handlers", "stream", "closed"}
 	calls := []string{"closeWith", "closer", "close", "filter", "Send", "Close", "NewHandler", "Read", "dispatch", "append"}
 	for _, fn := range []string{"MakeHandler", "RemoveHandler", "dispatch", "closeWith", "process", "Send"} {
 		l.strList(lowerFirst(fn)+"Flow", flowTokens(mustFunc(f, file, "*endPoint", fn), "e", fields, calls))
